@@ -335,11 +335,36 @@ def layer_family(ctx, rep, corr, rng, n_layers, n_values):
                                     f"(used by {len(layer.users(cname))} service(s)) on its own encoding {detail.get('pdu')}")
 
 
+def finding_corpus():
+    """witnesses of recorded (open) findings, each with its fixed signature: (tag, composite, value, trigger, what)"""
+    out = []
+    # found while proving the nested tier (W8): the echo of a MATCHING-REQUEST-PARAM is decoded as ONE unsigned integer
+    out.append(("matching-request-param-longer-than-8-bytes",
+                D.Composite("PR", "pos-response", [D.sid(0x62), D.matching_request("echo", 0, 9)]), {}, bytes(range(1, 11)),
+                "a MATCHING-REQUEST-PARAM with BYTE-LENGTH > 8 is accepted by the encoder (the request bytes are copied) but can never be decoded: "
+                "the decoder extracts 8*BYTE-LENGTH bits as a single A_UINT32 ('Integer objects cannot be longer than 64 bits')"))
+    # found while proving findTerm_spec / mm_byteLen (W10): the two-byte terminator straddles the search bound orig + MAX-LENGTH
+    mm = D.MinMax("A_UNICODE2STRING", 0, 3, "ZERO")
+    out.append(("minmax-unicode2-odd-max-length",
+                D.Composite("RQ", "request", [D.sid(), D.value("s", D.SimpleDop(mm, "A_UNICODE2STRING")), D.value("y", D.u8())]),
+                {"s": "a", "y": 0x77}, None,
+                "MIN-MAX-LENGTH A_UNICODE2STRING with an odd MAX-LENGTH: a value of MAX-LENGTH - 1 bytes is written with its two-byte terminator, "
+                "which straddles the decoder's search bound orig + MAX-LENGTH, so the decoder reads MAX-LENGTH bytes and fails (DecodeError)"))
+    return out
+
+
 def run(ctx):
     big = ctx.tier == "thorough"
     rng = ctx.rng
     rep = O.Reporter(ctx)
     corr = O.Correspondence(ctx)
+    for tag, c, v, trig, what in finding_corpus():
+        L, err = O.safe_load(c)
+        if L is None:
+            ctx.violate("loads", [tag], err.split(":")[0], O.witness(c, v, trig), f"corpus description {tag} is rejected by the loader: {err}")
+            continue
+        ctx.histo("family", "finding-corpus")
+        O.c01_check(ctx, rep, None, c, L[c.name], v, trig, "finding-corpus", fixed_features=[tag], what=what)
     # (a) corpus
     for tag, c, v, trig in corpus():
         L, err = O.safe_load(c)
